@@ -12,6 +12,7 @@ import contracts.setfl as SF
 import contracts.tabeam as TB
 import contracts.eam_tabulation as ET
 import contracts.actions as ACT
+import contracts.excel_eam as XL
 
 # every function on a path from a tabulation's write() to an evaluation of a user callable: each carries an exceptional
 # postcondition "the caller's document is unchanged" (writers that stream into a buffer handed to them say so: on_raise = []
@@ -25,7 +26,8 @@ FUNCTIONS = [(LT.FILE, '_writeSinglePotential'), (LT.FILE, 'writePotentials'), (
              (TB.FILE, '_writePairPotentials'), (TB.FILE, '_writeTABEAM_exceptDensity'), (TB.FILE, 'writeTABEAM'), (TB.FILE, 'writeTABEAMFinnisSinclair'),
              (ET.FILE, 'SetFL_EAMTabulation.write'), (ET.FILE, 'SetFL_FS_EAMTabulation.write'), (ET.FILE, 'TABEAM_EAMTabulation.write'),
              (ET.FILE, 'TABEAM_FinnisSinclair_EAMTabulation.write'), (ET.FILE, 'ADP_EAMTabulation.write'),
-             (ACT.FILE, 'action_tabulate')]      # potable: the named file holds the whole table, or (on any failure) is empty or was never opened
+             (ACT.FILE, 'action_tabulate'),
+             (XL.FILE, 'Excel_EAMTabulation._build_workbook')]      # potable: the named file holds the whole table, or (on any failure) is empty or was never opened
 
 def lemmas():
     """every public write() has the exceptional postcondition fp == old(fp): collected from the registry so that a contract
@@ -42,6 +44,7 @@ def lemmas():
     return out
 
 MUTANTS = [
+    (XL.FILE, 'Excel_EAMTabulation._build_workbook', "self._inner_tabulation = None\n        raise", "raise", 'on-raise'),      # the defect repaired by e34f81b
     (ACT.FILE, 'action_tabulate', "tabulation.write(outfile)", "outfile.write('# potable\\n')\n        tabulation.write(outfile)", 'on-raise'),
     (LT.FILE, '_writeSinglePotential', "'force': force}, file=sbuild)", "'force': force}, file=out)", 'on-raise'),
     (PT.FILE, 'GULP_PairTabulation.write', "self._write_pot(pot, sbuild)", "self._write_pot(pot, fp)", 'on-raise'),
